@@ -74,9 +74,12 @@ func (o Outcome) Attrs(typ, key string) []string {
 }
 
 // BeginBlock advances height and time (dt seconds) and runs the real app.BeginBlocker.
-func (r *Run) BeginBlock(dt int64) Outcome {
+func (r *Run) BeginBlock(dt int64) Outcome { return r.BeginBlockAfter(time.Duration(dt) * time.Second) }
+
+// BeginBlockAfter is BeginBlock with a block time that need not be a whole number of seconds after the previous one.
+func (r *Run) BeginBlockAfter(d time.Duration) Outcome {
 	r.Height++
-	r.Time = r.Time.Add(time.Duration(dt) * time.Second)
+	r.Time = r.Time.Add(d)
 	hdr := r.W.BaseHeader
 	hdr.Height = r.Height
 	hdr.Time = r.Time
